@@ -45,7 +45,9 @@ def build(i, check):
     if kind == "wait-optional-in-oneof":
         # the interesting runs are those in which the option's hard source is there long before the optional one
         oa, ob = rng.choice(["success", "success", "success", "error", "crash"]), rng.choice(["success", "success", "success", "error"])
-    multi = kind == "oneof" and i % 24 in (3, 11)  # every third one-of program: an option that needs both sources (see below)
+    multi = kind == "oneof" and i % 24 in (3, 11)
+    if kind == "oneof" and i % 24 == 19:
+        oa = ob = "success"  # every third one-of program: an option that needs both sources (see below)
     if multi:
         oa, ob = "success", rng.choice(["success", "success", "success", "error"])
     where = rng.choice(["top", "map", "list", "several"])
@@ -109,19 +111,26 @@ def build(i, check):
     else:
         t = {"w": Opt(Ref("A", "outputs", "success", "tag"), True), "s": Opt(Ref("B", "outputs", "success", "tag"), False),
              "o": OneOf("which", {"a": Expr(Ref("A", "outputs", "success")), "d": Expr(Ref("A", "disabled", "output"))})}
+    held = kind == "oneof" and not multi and i % 24 == 19  # the consumer is held back by a slower step: by then both alternatives are there
     value = place(t, where, rng)
     if where == "list" and isinstance(t, Opt) and t.node.path and t.node.path[-1] in ("tag", "message", "reason") and rng.random() < 0.7:
         # a list of objects whose first item has the optional member where the following ones have a plain value
         value = {"l": [{"e": t, "k": "c"}, {"e": "plain", "k": "c"}, {"e": "plain2", "k": "d"}]}
     outs = {}
+    if held:
+        steps.append(gen.plugin_step("H", Expr(In("tag"))))
     if consumer_kind in ("step-input", "both"):
-        C = gen.plugin_step("C", Expr(In("tag")), extra_input={"a": value})
+        C = gen.plugin_step("C", Expr(In("tag")) if not held else gen.tagref("H"), extra_input={"a": value})
         steps.append(C)
         outs["success"] = {"c": Expr(Ref("C", "outputs", "success"))}
     if consumer_kind in ("workflow-output", "both"):
         outs["direct"] = {"v": tagged2(value), "b": Expr(Ref("B", "outputs", "success", "tag"))} if kind not in ("oneof", "mixed", "wait-optional-in-oneof") and ob == "success" and rng.random() < 0.5 else {"v": tagged2(value)}
+    if held and "direct" in outs:
+        outs["direct"]["h"] = gen.tagref("H")
     prog = Program(steps, outs, gen.BASE_INPUT)
     scripts = gen.make_scripts(steps, outcome)
+    if held:
+        scripts["H"]["deploys"] = [{}, {"delay_ms": rng.choice([50, 90])}]
     for gname in late_gates:
         scripts[gname]["deploys"] = [{}, {"delay_ms": rng.choice([15, 30])}]
     # both completion orders: hold A (or B) until the other finished
@@ -138,6 +147,8 @@ def build(i, check):
         order = "free"
     g = {"program": prog, "scripts": scripts, "input": {"tag": "T1", "flag": True}, "shape": "%s/%s/%s A=%s B=%s %s" % (kind, where, consumer_kind, oa, ob, order),
          "outcome": outcome, "kind": kind, "oa": oa, "ob": ob}
+    if held:
+        g["shape"] += " consumer-held-back"
     if rng.random() < 0.2 and ob not in NO_EXEC and order == "free":
         # the engine is configured to log `success` outputs and its log target is slow; the other source's deployment takes a
         # moment, so that its stage changes fall into the time the first source's output is being logged
